@@ -248,6 +248,11 @@ def w_verify(interp, args, info):
     return P("verify", [to_parser(interp, args[0])], extra=args[1])
 
 
+@model("winnow::Parser::verify_map")
+def w_verify_map(interp, args, info):
+    return P("verify_map", [to_parser(interp, args[0])], extra=args[1])
+
+
 @model("winnow::Parser::value")
 def w_value(interp, args, info):
     return P("value", [to_parser(interp, args[0])], extra=args[1])
